@@ -397,9 +397,17 @@ producers = {}
 for step in job['steps']:
     try:
         if step['db'] not in producers:  # one feed / reader per storage and process, like a runner keeps it
-            from forml.provider.feed import alchemy
             tables = dslgen.catalog()
-            feed = alchemy.Feed({tables[n]: n.lower() for n in dslgen.SCHEMA}, connection=f"sqlite:///{step['db']}")
+            if step['feed'] == 'alchemy':
+                from forml.provider.feed import alchemy
+                feed = alchemy.Feed({tables[n]: n.lower() for n in dslgen.SCHEMA}, connection=f"sqlite:///{step['db']}")
+            elif step['feed'] == 'inline':
+                from forml.provider.feed import monolite
+                content = json.load(open(step['db']))
+                feed = monolite.Feed(inline={tables[n]: content[n] for n in ('A', 'B')})
+            else:
+                from forml.provider.feed import monolite
+                feed = monolite.Feed(csv={tables[n]: os.path.join(step['db'], n + '.csv') for n in ('A', 'B')})
             producers[step['db']] = feed.producer(feed.sources, feed.features, **feed._readerkw)
         statement = dslgen.build(dslgen.norm(step['ast']))
         table = producers[step['db']](statement, None)
@@ -428,6 +436,35 @@ def sqlite_write(path, data):
     conn.close()
 
 
+def storage_write(kind, path, data):
+    """Materialise the content of one storage: sqlite file, json for an inline feed, directory of csv files."""
+    from vlib import dslgen
+
+    if kind == 'alchemy':
+        sqlite_write(path, data)
+    elif kind == 'inline':
+        with open(path, 'w', encoding='utf-8') as fd:
+            json.dump({n: [list(r) for r in data[n]] for n in ('A', 'B')}, fd)
+    else:
+        import csv
+
+        os.makedirs(path, exist_ok=True)
+        for name in ('A', 'B'):
+            with open(os.path.join(path, name + '.csv'), 'w', encoding='utf-8', newline='') as fd:
+                writer = csv.writer(fd)
+                writer.writerow([c for c, _ in dslgen.SCHEMA[name]])
+                writer.writerows(data[name])
+
+
+def nullfree_data(rng):
+    """Small NULL-free contents for A and B (the lazy feeds cast columns to plain dtypes)."""
+    from vlib import dslgen
+
+    domain = {'Integer': [0, 1, 1, 2, 3, -1], 'Float': [0.5, 1.5, -1.0, 2.0], 'String': ['a', 'b', 'c', 'd']}
+    return {name: [tuple(rng.choice(domain[kind]) for _, kind in dslgen.SCHEMA[name]) for _ in range(rng.randint(1, 5))]
+            for name in ('A', 'B')}
+
+
 def run_reader_history(ctx, index):
     """One history: steps are executed in child processes sharing one FORML_HOME."""
     from vlib import core, dsleval, dslgen
@@ -435,12 +472,15 @@ def run_reader_history(ctx, index):
     rng = ctx.rng('history', index)
     workdir = tempfile.mkdtemp(prefix='c06-hist-')
     home = os.path.join(workdir, 'home')
+    kind = ['alchemy', 'inline', 'csv'][index % 3]
+    ctx.count(f'reader_histories_{kind}')
     try:
-        stores = {'f': os.path.join(workdir, 'f.sqlite'), 'g': os.path.join(workdir, 'g.sqlite')}
+        suffix = {'alchemy': '.sqlite', 'inline': '.json', 'csv': '.d'}[kind]
+        stores = {'f': os.path.join(workdir, 'f' + suffix), 'g': os.path.join(workdir, 'g' + suffix)}
         contents = {}
         for key, path in stores.items():
-            contents[key] = dsleval.random_data(rng, dslgen.SCHEMA)
-            sqlite_write(path, contents[key])
+            contents[key] = dsleval.random_data(rng, dslgen.SCHEMA) if kind == 'alchemy' else nullfree_data(rng)
+            storage_write(kind, path, contents[key])
         statements = [
             dslgen.query(dslgen.table('A'), select=(dslgen.column('A', 'x'), dslgen.column('A', 's'))),
             dslgen.query(dslgen.table('B'), select=(dslgen.column('B', 'x'), dslgen.column('B', 'w')),
@@ -470,13 +510,15 @@ def run_reader_history(ctx, index):
             plan.append(current)
         history = []
         reads = []
+        history_processes = []
         for item in plan:
             if item == 'mutate-f':
-                contents['f'] = dsleval.random_data(rng, dslgen.SCHEMA)
-                sqlite_write(stores['f'], contents['f'])
+                contents['f'] = dsleval.random_data(rng, dslgen.SCHEMA) if kind == 'alchemy' else nullfree_data(rng)
+                storage_write(kind, stores['f'], contents['f'])
                 history.append('mutate-f')
                 continue
-            steps = [{'feed': 'alchemy', 'db': stores[k], 'ast': statements[(len(history) + n) % len(statements)], 'key': k}
+            history_processes.append(len(history))
+            steps = [{'feed': kind, 'db': stores[k], 'ast': statements[(len(history) + n) % len(statements)], 'key': k}
                      for n, k in enumerate(item)]
             job = {'steps': steps, 'out': os.path.join(workdir, 'out.json')}
             with open(os.path.join(workdir, 'job.json'), 'w', encoding='utf-8') as fd:
@@ -495,7 +537,7 @@ def run_reader_history(ctx, index):
                 ctx.count('evaluations')
                 ctx.count('reader_reads_checked')
                 history.append(f'read-{key}')
-                reads.append((key, dslgen.signature(ast)))
+                reads.append((key, dslgen.signature(ast), len(history_processes)))
                 witness = {'history': list(history), 'ast': ast}
                 if 'error' in result:
                     ctx.violation('reader-read-raises', f'read through feed {key} failed: {result["error"]}', witness)
@@ -504,9 +546,16 @@ def run_reader_history(ctx, index):
                 if dsleval.bag(expected) != dsleval.bag([tuple(r) for r in result['rows']]):
                     # known mechanism: the same statement was read before, through any feed, and the storage behind this
                     # read differs from that earlier read's (mutated since, or another database)
-                    same_before = [k for k, sig in reads[:-1] if sig == dslgen.signature(ast)]
+                    same_before = [k for k, sig, _ in reads[:-1] if sig == dslgen.signature(ast)]
                     stale = bool(same_before) and ('mutate-f' in history[:-1] or any(k != key for k in same_before))
                     key_name = 'alchemy-result-cache-keyed-by-sql-text' if stale else 'reader-result-differs'
+                    if kind != 'alchemy':
+                        # the lazy feeds register each table once per process in a global duckdb backend keyed by the
+                        # table: a read after another feed with equally named tables was read in the same process
+                        # sees that feed's content (on top of the SQL-text keyed result cache they inherit)
+                        other_in_process = any(k != key and proc == len(history_processes) for k, _, proc in reads[:-1])
+                        if stale or other_in_process:
+                            key_name = 'lazy-feed-backend-and-result-cache-keyed-by-table-and-sql-text'
                     ctx.violation(key_name, f'history {history}: read through {key} returned {result["rows"][:4]} but its storage '
                                   f'holds {expected[:4]}', witness)
         ctx.shape(('history', tuple(history)))
@@ -548,7 +597,7 @@ def run(ctx):
             check_statement(ctx, engines, ast, empty, 'emptyB')
     finally:
         engines.close()
-    total = ctx.pick(12, 160)
+    total = ctx.pick(9, 180)
     for index in range(total):
         if ctx.mine(index):
             run_reader_history(ctx, index)
